@@ -331,6 +331,33 @@ bits }` (namespace CB.Gen.SafeGcdLimbs.UnsatInt) and the free functions `fg`, `d
   `&self` is the TUPLE of the struct's fields in declaration order, read from `struct SafeGcdInverter<..> { modulus, adjuster,
   inverse }` on every run (`self.modulus` is component 1; a field of another type than `UnsatInt<UNSAT_LIMBS>` / an integer makes
   the unit's functions `kept_last`); assignment to a `mut` parameter (`value = ..`) re-binds it like any variable.
+Round 4, G19 (the rest of the fixed-size inverter, C10; two units APPENDED to lean/CB/Gen/SafeGcdLimbs.lean, whose earlier definitions
+are unchanged): `impl UnsatInt<LIMBS> { from_uint, to_uint }` (namespace CB.Gen.SafeGcdLimbs.Convert) and
+`impl SafeGcdInverter<SAT_LIMBS, UNSAT_LIMBS> { new, inv }` (namespace CB.Gen.SafeGcdLimbs.InverterApi).  Subset extensions:
+  unit option `limb_convert`: the MACRO `impl_limb_convert!` is expanded in the unit's text before parsing, by substitution — the
+  macro's parameter list and body are READ from src/modular/safegcd/macros.rs on every run, every invocation
+  `impl_limb_convert!(a, b, c, d, e, f);` is replaced by the body with `$name` := the argument (an `expr` argument in parentheses
+  unless it is a path / method chain / literal, a leading `&` dropped; a `ty` argument as it stands; `<T>::X` read as `T::X`).
+  The nested `const fn min(a, b) { if a > b { b } else { a } }` of the macro must have exactly that text (else the functions are
+  `kept_last`); a call `min(x, y)` on `Nat`s is `(if x > y then y else x)`.  `fn f<const SAT_LIMBS: usize>(..)`: the function's
+  own const generic is the unit's `generic2` (an explicit `Nat` argument after `LIMBS`); `panic_guards`: the guard
+  `if LIMBS != safegcd_nlimbs!(..) { panic!(..) }` is dropped and recorded as `-- the source panics if: ..`;
+  `[0; LIMBS]` / `[0 as Word; SAT_LIMBS]` is `List.replicate n 0#64` (a list of plain words), `Self(words)` the `UnsatInt`,
+  `Uint::from_words(words)` the `Uint`, `u.as_words()` the word list of a `Uint`, `words.len()` its length, `arr[i] op= e` on a
+  word list `arr.set i (arr[i] op e)`; `Word::BITS as usize` is the `Nat` 64; `%` and `/` on `Nat`s (bit cursors), `let (i, o) =
+  (bits % 64, bits % 62);`, an `if c { 1 } else { 0 }` expression of type `Nat`; `x >> i` / `x << o` by a `Nat` (amount modulo 64,
+  like every non-constant amount);
+  an eighth `while` form:
+    - `let mut bits = 0; while bits < total { ..; bits += <Nat expression of the body's locals>; }` — the fourth form with a
+      DATA-DEPENDENT step: `<fn>_loop<j> captured.. : Nat → Nat → state.. → state` by recursion on a fuel argument, called with
+      `total - 0`; every round re-tests `bits < total`.  The fuel suffices iff every step is `>= 1`: a proof obligation of the
+      bridge (`convLoop_fuel_succ` of CB/Lemmas/GenSafeGcdConv.lean), not an assumption of the translation.
+  unit option `inverter_api`: `Self { modulus: e1, adjuster: e2, inverse: e3 }` of `SafeGcdInverter` is the tuple of the fields in
+  declaration order (any order in the literal); `Odd<Uint<SAT_LIMBS>>` is a newtype (`.0`); `UnsatInt::from_uint(x)` /
+  `x.to_uint()` resolve to the `Convert` unit and get BOTH limb counts (`from_uint UNSAT_LIMBS SAT_LIMBS x`: a callee with the same
+  two const generics is callable); `self.norm(..)` resolves to the `Inverter` unit; `UnsatInt::MINUS_ONE` / `UnsatInt::ONE` are READ
+  from the source on every run (`Self([Self::MASK; LIMBS])` -> `List.replicate LIMBS MASK`; `{ let mut ret = Self::ZERO;
+  ret.0[K] = V; ret }` -> `(List.replicate LIMBS 0#64).set K V#64`; another defining text -> `kept_last`).
 """
 import os, re, sys, json
 
